@@ -1330,9 +1330,57 @@ def kf_folder_case(exe, kind):
         shutil.rmtree(top, ignore_errors=True)
 
 
+def kf_round18_case(exe, kind):
+    top = tempfile.mkdtemp(prefix='clirun-', dir=WORK)
+    try:
+        ws = os.path.join(top, 'ws')
+        outd = os.path.join(top, 'out'); os.makedirs(outd)
+        if kind == 'folder_outside_src':
+            # kf-c03-folder-mode-file-outside-src
+            tree(ws, {'mycrate/src/lib.rs': '#[typeshare]\npub struct Account { pub id: u32 }\n', 'mycrate/examples/demo.rs': '#[typeshare]\npub struct DemoConfig { pub v: u32 }\n'})
+            rc, out = run(exe, ['--lang', 'typescript', '--output-folder', outd, ws], cwd=ws, timeout=20)
+            text = ''.join(open(os.path.join(outd, f)).read() for f in os.listdir(outd))
+            if rc == 0 and 'Account' in text and 'DemoConfig' not in text:
+                return 'folder output: the annotated struct DemoConfig in mycrate/examples/demo.rs (no `src` above it) is neither generated nor reported; --output-file generates it'
+        elif kind == 'two_roots':
+            # kf-c03-overlapping-roots-duplicate
+            tree(ws, {'app/src/lib.rs': '#[typeshare]\npub struct AppState { pub ready: bool }\n', 'app/plugins/shared/src/lib.rs': '#[typeshare]\npub struct SharedSettings { pub volume: u8 }\n'})
+            outp = os.path.join(top, 'o.kt')
+            rc, out = run(exe, ['--lang', 'kotlin', '--java-package', 'com.x', '--output-file', outp, os.path.join(ws, 'app'), os.path.join(ws, 'app', 'plugins', 'shared')], cwd=ws, timeout=20)
+            if rc == 0 and os.path.exists(outp) and open(outp).read().count('data class SharedSettings') > 1:
+                return 'a file reachable through two of the given directories is generated twice (`data class SharedSettings` occurs twice)'
+        elif kind == 'py_mapped_datetime_nested':
+            # kf-c12-python-mapped-datetime-not-a-field
+            tree(ws, {'c/src/lib.rs': '#[typeshare]\npub type Stamp = NaiveDateTime;\n#[typeshare]\npub struct Log { pub seen: Vec<NaiveDateTime>, pub last: Option<NaiveDateTime> }\n'})
+            cfgp = os.path.join(top, 't.toml')
+            with open(cfgp, 'w') as f:
+                f.write('[python.type_mappings]\n"NaiveDateTime" = "datetime"\n')
+            outp = os.path.join(top, 'o.py')
+            rc, out = run(exe, ['-c', cfgp, '--lang', 'python', '--output-file', outp, ws], cwd=ws, timeout=20)
+            if rc == 0 and os.path.exists(outp):
+                try:
+                    missing = py_helper_names(open(outp).read())
+                except SyntaxError:
+                    missing = []
+                if 'datetime' in missing:
+                    return 'a type mapped to `datetime` that is an alias target / inside Vec / Option (not the whole type of a struct field) is written as `datetime` without `from datetime import datetime`'
+        elif kind == 'mod_decl_cfg':
+            # kf-c13-cfg-on-mod-declaration
+            tree(ws, {'c/src/lib.rs': '#[cfg(target_os = "android")]\nmod android;\n#[typeshare]\npub struct Common { pub a: u32 }\n', 'c/src/android.rs': '#[typeshare]\npub struct AndroidIntent { pub action: String }\n'})
+            outp = os.path.join(top, 'o.ts')
+            rc, out = run(exe, ['--lang', 'typescript', '--output-file', outp, ws, '--target-os=ios'], cwd=ws, timeout=20)
+            if rc == 0 and os.path.exists(outp) and 'AndroidIntent' in open(outp).read():
+                return 'with --target-os=ios the types of android.rs are generated although its `mod android;` declaration carries cfg(target_os = "android") (the file is parsed on its own)'
+        return None
+    finally:
+        shutil.rmtree(top, ignore_errors=True)
+
+
 def kf_case(exe, kind):
     if kind == 'stdout_pipe':
         return stdout_pipe_case(exe)
+    if kind in ('folder_outside_src', 'two_roots', 'py_mapped_datetime_nested', 'mod_decl_cfg'):
+        return kf_round18_case(exe, kind)
     if kind in ('glob_renamed', 'dot_crate_name'):
         return kf_folder_case(exe, kind)
     if kind == 'py_keyword_content_key':
